@@ -24,6 +24,8 @@ func main() {
 	switch os.Args[1] {
 	case "ledger":
 		cmdLedger(os.Args[2:])
+	case "replay":
+		cmdReplay(os.Args[2:])
 	default:
 		if !dispatch(os.Args[1], os.Args[2:]) {
 			die(fmt.Errorf("unknown subcommand %q", os.Args[1]))
@@ -61,5 +63,22 @@ func cmdLedger(args []string) {
 		die(err)
 	}
 	st, _ := json.Marshal(map[string]interface{}{"lines": t.Lines, "traces": t.Traces, "stats": t.Stats})
+	fmt.Println(string(st))
+}
+
+func cmdReplay(args []string) {
+	fs := flag.NewFlagSet("replay", flag.ExitOnError)
+	in := fs.String("in", "steps.json", "concrete steps")
+	out := fs.String("out", "replay.ndjson", "output trace")
+	fs.Parse(args)
+	t, err := world.NewTracer(*out)
+	if err != nil {
+		die(err)
+	}
+	if err := drv.Replay(*in, t); err != nil {
+		die(err)
+	}
+	t.Close()
+	st, _ := json.Marshal(map[string]interface{}{"lines": t.Lines, "traces": 1, "stats": t.Stats})
 	fmt.Println(string(st))
 }
